@@ -8,6 +8,9 @@ checks, na = [], []
 for p in props:
     pid = p["id"]
     f = HERE + "/xmc/props/%s.py" % pid.lower()
+    ready = [l.strip() for l in open(HERE + "/tools/ready.txt") if l.strip()]
+    if os.path.exists(f) and pid not in ready:
+        na.append(dict(property_id=pid, reason="check module exists but is still being validated in this session; not a limit of the technique")); continue
     if not os.path.exists(f):
         na.append(dict(property_id=pid, reason="check not built yet in this session (design in DESIGN.md section 5); not a limit of the technique"))
         continue
